@@ -315,6 +315,20 @@ def constructors():
 _CONS = None
 
 
+class _Field:
+    def __init__(self, name, typename):
+        self.name, self.typename = name, typename
+
+
+def h_fields_for(rec):
+    def fields(typename):
+        if isinstance(typename, RefTM):
+            typename = typename._tname()
+        return [_Field(n, t) for t, n in declared_fields(rec) if t == typename]
+
+    return fields
+
+
 def namespace(rec):
     global _CONS
     if _CONS is None:
@@ -325,7 +339,7 @@ def namespace(rec):
         "r": Plain(rec), "Type": RefType(rec), "net": net, "TV": TV,
         "lower": h_lower, "upper": h_upper, "name": h_name, "names": h_names, "get_type": h_get_type,
         "has_field": h_has_field, "field_contains": h_field_contains, "field_equals": h_field_equals,
-        "field_regex": h_field_regex,
+        "field_regex": h_field_regex, "fields": h_fields_for(rec),
         "__builtins__": {"str": str, "repr": repr, "any": any, "all": all, "True": True, "False": False, "None": None},
     })
     return ns
@@ -406,7 +420,7 @@ def evaluate(expr, rec):
 
 L_BINOPS = (ast.Add, ast.Mult, ast.Div, ast.Mod, ast.BitAnd, ast.BitOr)
 L_CMPOPS = (ast.Eq, ast.NotEq, ast.Lt, ast.LtE, ast.Gt, ast.GtE, ast.In, ast.NotIn, ast.Is, ast.IsNot)
-L_CALL_NAMES = {"lower", "upper", "name", "names", "get_type", "has_field", "field_contains", "field_equals", "field_regex",
+L_CALL_NAMES = {"fields", "lower", "upper", "name", "names", "get_type", "has_field", "field_contains", "field_equals", "field_regex",
                 "str", "repr", "any", "all"}
 
 
@@ -484,6 +498,8 @@ def in_language(expr, compiled=False):
             p = call_path(node)
             if p is None:
                 return False
+            if p == "fields" and compiled:
+                return False  # the field lookup helper exists in the interpreted engine's namespace only
             if p in L_CALL_NAMES:
                 continue
             if p in TYPE_NAMES and (p.startswith("net.") or not compiled):
